@@ -928,6 +928,8 @@ void mon_capabilities(const Run& run, const Ix& ix, Verdicts& v, vu::Result& res
     }
     // application side: requests the model says must be refused
     for (auto& o : h.ops) {
+        if (!o.immediate_expected && run.sc->family.rfind("c15", 0) == 0 && is_request(o) && o.completions && o.ec.category() == boost::mqtt5::client::get_error_code_category() && o.ec != mqe::error::pid_overrun)
+            v.add("C15", "C15:admissible-request-refused:" + ec_name(o.ec), op_str(o) + ": a request within every announced capability was refused with " + ec_name(o.ec));
         if (!o.immediate_expected) continue;
         res.count("requests_expected_to_be_refused");
         bool pub = o.kind == OpKind::pub0 || is_pub12(o);
